@@ -185,7 +185,7 @@ def one_program(ctx, prog, rng):
 def run_shard(ctx):
     rng = ctx.rng('c14')
     rp = gen.RandomPrograms(rng, max_depth=4, max_eqs=5, max_names=8, big_offsets=True, lhs_offsets=(0, 0, 0, 0, -1, 1))
-    for i in range(ctx.pick(25, 600)):
+    for i in range(ctx.pick(80, 2500)):
         prog = rp.program()
         one_program(ctx, prog, rng)
     # small exhaustive shapes under the catalogue
